@@ -57,6 +57,10 @@ inductive Name where
   | f (k : Nat)       -- a plain function name `f<k>` (nothing else of that name exists)
   | true_             -- `true`: a mandatory (regular) built-in, a function of that name wins
   | colon             -- `:`: a special built-in, it wins over a function of that name
+  | sbIn              -- `sbin`: a substitutive built-in whose external counterpart is in `$PATH`
+  | sbOut             -- `sbout`: a substitutive built-in with nothing of that name in `$PATH`
+  | xtIn              -- `xtin`: no built-in; an executable file of that name is in `$PATH`
+  | xtPath            -- `/bin/xtin`: a name with a slash is always an external utility
   deriving DecidableEq, Repr
 
 inductive CaseCont where | break_ | fallThrough | continue_
@@ -147,11 +151,20 @@ def setCounter (cs : List (Nat × Nat)) (c v : Nat) : List (Nat × Nat) :=
 /-- what the command search finds for a name (`classify`): special built-in, function, other built-in -/
 inductive Target where
   | specialColon | function (body : Cmd) | regularTrue | notFound
+  | status (n : Nat)    -- a target whose only effect is its exit status (see `classify`)
 
 def classify (s : St) : Name → Target
   | .colon => .specialColon
   | .true_ => match lookupFn s.funcs .true_ with | some b => .function b | none => .regularTrue
   | .f k => match lookupFn s.funcs (.f k) with | some b => .function b | none => .notFound
+  -- `resolve_builtin`: a substitutive built-in runs (status 0) only if `search_path` finds its name,
+  -- otherwise the command is not found; a function of that name comes first either way
+  | .sbIn => match lookupFn s.funcs .sbIn with | some b => .function b | none => .status 0
+  | .sbOut => match lookupFn s.funcs .sbOut with | some b => .function b | none => .status 127
+  -- an external utility found in `$PATH`: the simulated `execve` fails with ENOSYS, status 126
+  | .xtIn => match lookupFn s.funcs .xtIn with | some b => .function b | none => .status 126
+  -- `name.contains('/')`: functions are not consulted
+  | .xtPath => .status 126
 
 /-- `break`/`continue` built-in (`semantics::run`) with the `Builtin` frame already pushed:
     returns (exit status, divert) -/
@@ -217,6 +230,7 @@ mutual
           | .break_ (.return_ e) =>
             finishSimple (match e with | some e => { s1 with status := e } | none => s1) .continue_
           | r => finishSimple s1 r
+        | .status n => finishSimple { s with status := n } .continue_
       | .fundef name body =>
         finishSimple { s with funcs := defineFn s.funcs name body, status := 0 } .continue_
       | .expErr => (s, s.expansionError)
